@@ -921,7 +921,8 @@ class vPeriod(TimeBase):
         # set the timezone identifier
         # does not support different timezones for start and end
         tzid = tzid_from_dt(start)
-        if tzid:
+        if tzid and tzid != 'UTC':
+            # UTC is written as "Z", not as a TZID
             self.params['TZID'] = tzid
 
         self.start = start
